@@ -25,7 +25,7 @@ SPEC = {
     "assumptions": ["vlib/tealgrammar.py follows go-algorand's tokenizer and literal decoders (both quoting rules tried)",
                     "Python's codecs and hashlib"],
     "min_evaluations": {"quick": 20000, "thorough": 200000},
-    "must_reach": ["str_ok", "bytes_ok", "bytearray_reused_after_construction", "base16_ok", "base32_ok", "base64_ok", "addr_ok", "method_ok", "int_ok",
+    "must_reach": ["str_ok", "bytes_ok", "bytearray_reused_after_construction", "assembled_among_many", "base16_ok", "base32_ok", "base64_ok", "addr_ok", "method_ok", "int_ok",
                    "rejected_malformed"],
 }
 
@@ -174,7 +174,7 @@ def gen_case(rng):
     if t < .06:
         return {"cls": "int", "lit": str(v), "py": "float"}
     if t < .1:
-        return {"cls": "int", "lit": "1", "py": "bool"}
+        return {"cls": "int", "lit": "1", "py": rng.choice(["bool", "bool_false", "intenum"])}
     if t < .13:
         return {"cls": "int", "lit": str(v), "py": "str"}
     return {"cls": "int", "lit": str(v), "py": "int"}
@@ -252,9 +252,17 @@ def check_case(pt, acc, c):
             nontriv = True
             py = c["py"]
             val = int(lit)
-            arg = {"int": val, "float": float(val), "bool": True, "str": lit}[py]
-            malformed = py != "int" or not (0 <= val < 2**64)
-            expected = None if malformed else val
+            if py in ("bool", "bool_false", "intenum"):
+                # int subclasses: rejected, or else the value they stand for is what gets pushed (True -> 1)
+                import enum
+                arg = {"bool": True, "bool_false": False, "intenum": enum.IntEnum("E", {"A": 7}).A}[py]
+                val = int(arg)
+                malformed = True
+                expected = val
+            else:
+                arg = {"int": val, "float": float(val), "str": lit}[py]
+                malformed = py != "int" or not (0 <= val < 2**64)
+                expected = None if malformed else val
             expr = pt.Int(arg)
     except PT_ERRORS as e:
         if nontriv:
@@ -279,11 +287,13 @@ def check_case(pt, acc, c):
     if malformed:
         if cls == "addr" and c.get("mut") == "checksum":
             acc.violation("addr_bad_checksum_accepted", c, "Addr(%r) accepted although its checksum is wrong" % lit)
-        elif cls == "int" and c.get("py") == "bool":
-            acc.counters["int_bool_accepted"] += 1
+        elif cls == "int" and c.get("py") in ("bool", "bool_false", "intenum"):
+            acc.counters["int_subclass_accepted"] += 1  # accepted: then it has to push the value it stands for (checked below)
         else:
             acc.violation("malformed_accepted", c, "malformed %s literal %r accepted at construction" % (cls, lit))
-        return
+            return
+        if not (cls == "int" and c.get("py") in ("bool", "bool_false", "intenum")):
+            return
     # ---- compile and decode
     version = 6
     try:
@@ -381,6 +391,29 @@ def check_case(pt, acc, c):
                 acc.violation("assembled_literal_mismatch", c, "%s literal %r under assembleConstants logged %r (status %s %s), expected %r | %r"
                               % (cls, lit, r2.logs[:2], r2.status, r2.error, want_log, teal2.split("\n")[1:4]))
                 return
+    if cls == "int" and int(key, 16) % 4 == 0:
+        # the literal among other repeated integer constants (small ones are loaded with pushint, frequent large ones from the
+        # block; ranks and block positions differ): every Int(n) in the program still pushes its own n
+        import random
+        r4 = random.Random(int(key, 16))
+        comp = r4.sample([0, 1, 2, 5, 100, 127, 128, 129, 255, 256, 1000, 5000, 6000, 65536, 2**32, 2**63, 2**64 - 1], r4.choice([4, 5, 6, 8]))
+        seq = []
+        for cv in comp:
+            seq += [cv] * r4.choice([2, 2, 3, 4, 5])
+        seq += [expected] * r4.choice([1, 2, 3])
+        r4.shuffle(seq)
+        try:
+            teal4 = pt.compileTeal(pt.Seq(*[pt.Log(pt.Itob(pt.Int(x))) for x in seq], pt.Int(1)), pt.Mode.Application, version=version, assembleConstants=True)
+            r5 = avm.run(avm.parse_any(teal4), avm.Ctx())
+        except Exception as e:
+            acc.violation("assembled_literal_mismatch", c, "assembleConstants compile/run of %d integer constants raised %s: %s" % (len(seq), type(e).__name__, str(e)[:200]))
+            return
+        acc.counters["assembled_among_many"] += 1
+        if r5.status != "approve" or r5.logs != [x.to_bytes(8, "big") for x in seq]:
+            bad = next((i for i, (a, b) in enumerate(zip(r5.logs, seq)) if a != b.to_bytes(8, "big")), len(r5.logs))
+            acc.violation("assembled_literal_mismatch", c, "Int constants %r under assembleConstants: constant #%d pushes %r (status %s %s)"
+                          % (seq[:12], bad, int.from_bytes(r5.logs[bad], "big") if bad < len(r5.logs) else None, r5.status, r5.error))
+            return
     if any(v is not None for v in verdicts):
         acc.counters["quoting_rules_disagree"] += 1
     acc.counters[cls + "_ok"] += 1
